@@ -62,12 +62,12 @@ func (kf *KnownFile) match(prop string, o *Obligation) *KnownFinding {
 }
 
 // counts tells whether obligation o is decided by the check of property prop.
-func counts(prop string, o *Obligation) bool {
+func counts(sp *Specs, prop string, o *Obligation) bool {
 	if o.Kind == "canary" {
 		return false
 	}
 	if o.Label != "" {
-		return labelHasProp(o.Label, prop)
+		return sp.labelCounts(o.Label, prop)
 	}
 	if prop == "C15" {
 		return safetyKinds[o.Kind] || supportingKinds[o.Kind]
@@ -136,13 +136,14 @@ func (e *Engine) RunCheck(opt CheckOpts) *CheckResult {
 			// obligations count for Cxx as well
 			viaProps := false
 			if ctx.C != nil && o.Kind != "canary" {
+				cov := e.Specs.covers(opt.Prop)
 				for _, p := range ctx.C.Props {
-					if p == opt.Prop {
+					if cov[p] {
 						viaProps = true
 					}
 				}
 			}
-			if counts(opt.Prop, o) || viaProps || o.Kind == "canary" {
+			if counts(e.Specs, opt.Prop, o) || viaProps || o.Kind == "canary" {
 				keep = append(keep, o)
 			}
 		}
